@@ -163,6 +163,7 @@ class Broker:
         self.old_aliases = set()       # alias numbers this server bound on earlier connections (stale now)
 
     def new_connection(self):
+        self.awaiting_pubrel = set()
         self.buf = b""
         self.pending = []
         self.seen = []
@@ -190,6 +191,7 @@ class Broker:
                 self.pending.append({"kind": "pubrec", "pid": d["pid"]})
             elif k == "pubrel":
                 self.pending.append({"kind": "pubcomp", "pid": d["pid"]})
+                getattr(self, "awaiting_pubrel", set()).discard(d["pid"])
             elif k == "subscribe":
                 self.pending.append({"kind": "suback", "pid": d["pid"], "n": d["n"]})
             elif k == "unsubscribe":
@@ -535,6 +537,10 @@ class Walk:
             if self.v5 and k in ("puback", "pubrec") and r.chance(0.15):
                 rc = r.choice([16, 128, 135, 151])
             pkt = b.ack(k, p["pid"], rc, props=self.v5 and r.chance(0.1))
+            if k == "pubrec" and rc < 128:
+                if not hasattr(b, "awaiting_pubrel"):
+                    b.awaiting_pubrel = set()
+                b.awaiting_pubrel.add(p["pid"])
         elif k == "suback":
             pkt = b.suback(p["pid"], [r.choice([0, 1, 2, 128]) for _ in range(p["n"])])
         elif k == "unsuback":
@@ -587,6 +593,15 @@ class Walk:
         self.tainted = True
         c = r.random()
         hostile_ack = None
+        early = sorted(getattr(b, "awaiting_pubrel", set()))
+        if early and r.chance(0.5):
+            # the PUBREL for this id has not arrived yet (it may be queued or half written): answer it anyway
+            hp = r.choice(early)
+            pkt = b.ack("pubcomp", hp) if r.chance(0.6) else b.ack("pubrec", hp, 128 if self.v5 else 0)
+            hostile_ack = {"kind": "pubcomp", "pid": hp, "hostile": True}
+            self.data(pkt, "hostile:early-pubcomp")
+            self.notes[-1].update(ack=hostile_ack)
+            return
         ackable = [x for x in b.pending if x["kind"] in ("suback", "unsuback", "puback", "pubrec", "pubcomp")]
         if ackable and r.chance(0.3):
             # an acknowledgement of the wrong type, or with the wrong number of reason codes, for an operation that IS pending
